@@ -154,6 +154,8 @@ def run(ctx):
     c18.incomplete_flag_clause(ctx, res, cfl, 'C05', 'C05.f')
 
     rm.interception_flag_clause(ctx, res, 'C05', 'C05.g')
+    from . import common as _ci
+    _ci.import_clauses(ctx, res, 'C10', ['C10.d'], 'C05', 'C05.i', 'R-AGREE', 'a save that fails leaves nothing behind that lookups can find', floor=1)
     # ---- C05.h the ordinal counter is fresh whenever the scope is left (also after a discard): otherwise the next recording's
     # outputs are stored from #2 on and a complete, unflagged recording cannot be replayed (missing key #1)
     from . import c09
